@@ -192,6 +192,15 @@ example : ((run .repaired (connect [exUnix, exEp]) (exHistory ++ [.close])).log.
     [.connCb 0, .connCb 1, .timerCancelled 1, .callErr 1 .lost, .callErr 2 .lost,
      .proxyCb 0 2, .proxyCb 0 3, .proxyCb 1 4] := by decide
 
+/-- Callbacks that obtain a new proxy (explicit interfaces, registered synchronously) while `connectionLost`
+runs: a proxy made by a connection-level callback (or an errback) is in the registry before the registry walk
+starts and its callback runs in it; a proxy made by a proxy callback during the walk is not part of that walk
+(the walk is over `valuerefs()`, a snapshot); every original callback still runs exactly once. -/
+example :
+    ((run .repaired (connect [exEp]) [.attemptConnects, .authOk, .helloReply, .notify .newProxy, .call false .newProxy,
+        .proxyExplicit 0, .proxyNotify 0 .newProxy, .proxyExplicit 0, .proxyNotify 1 .nothing, .close]).log.drop 2) =
+      [.connCb 0, .callErr 1 .lost, .proxyCb 0 1, .proxyCb 1 2, .proxyCb 2 3, .proxyCb 3 4] := by decide
+
 /-! ## Witnesses: the unrepaired code (variant `.original`) violates the property at these inputs -/
 
 /-- F13: the transport closes during authentication and the connect Deferred never fires. -/
